@@ -2,7 +2,8 @@
 
 proof: GeoVerif.Properties.C20 (path plan of the command line: input / report / JSON, independent of the internal chdir; JSON is the report's
        sibling; kernel-evaluated witness for the str.replace derivation of the pinned tree)
-tie:   subprocess `python -m geophires_x` runs vs the in-process client vs runs embedded in the Monte-Carlo driver on the same inputs
+tie:   subprocess `python -m geophires_x` runs vs the in-process client vs the direct Model pipeline (fresh process, default report name) vs
+       runs embedded in the Monte-Carlo driver on the same inputs
        (succeeding and failing) x {no output argument, relative, absolute, directory name containing the file name} x start directories:
        files created (compared with the Lean plan, exactly), exit status, numeric report content.
 """
@@ -21,7 +22,7 @@ from .c12 import dec, enc
 
 RULE = ('CLI subprocess runs: ~10 inputs (all end-use families, 3 failing kinds) x 6 output-argument shapes x 3 start directories, each compared with '
         'the in-process client run of the same content and with the Lean path plan; Monte-Carlo embedded runs (degenerate distributions) vs the '
-        'CLI report of the same input. non-trivial = every run; distinct by (content, argument shape, start directory)')
+        'CLI report of the same input; the direct Model pipeline vs the client report. non-trivial = every run; distinct by (content, argument shape, start directory)')
 
 
 def digest(text: str) -> str:
@@ -40,6 +41,7 @@ def contents(rng):
     import random as _random
     c8 = _c08_pool(_random.Random(0))
     pool['mpf-a'], pool['mpf-b'] = c8['mpf-a'], c8['mpf-b']
+    pool['addon'] = c8['addon']      # the add-on sections are written by a second writer object with its own idea of the report path
     b = geo.base_params(2, 1, 1)
     b['Reservoir Depth'] = 300
     pool['badrange'] = geo.params_to_text(b)
@@ -58,14 +60,14 @@ def contents(rng):
     return pool
 
 
-SHAPES = ['default', 'relative', 'relative-subdir', 'absolute', 'dir-contains-name', 'absolute-dir-contains-name', 'no-suffix']
+SHAPES = ['default', 'relative', 'relative-subdir', 'absolute', 'dir-contains-name', 'absolute-dir-contains-name', 'no-suffix', 'no-suffix-in-dotted-dir']
 
 
 def cli_run(job):
     base, cid, text, shape, start = job
     d = Path(base)
     d.mkdir(parents=True, exist_ok=True)
-    for sub in ('start', 'start/sub', 'elsewhere', 'start/out', 'start/a.out.d', 'abs/b.out.d'):
+    for sub in ('start', 'start/sub', 'elsewhere', 'start/out', 'start/a.out.d', 'abs/b.out.d', 'start/site.v2'):
         (d / sub).mkdir(parents=True, exist_ok=True)
     inp = d / 'elsewhere' / 'input file.txt'
     inp.write_text(text)
@@ -74,8 +76,13 @@ def cli_run(job):
         (d / 'elsewhere' / 'Examples').mkdir(exist_ok=True)
         (d / 'elsewhere' / 'Examples' / 'ReservoirOutput.txt').write_text(''.join(f'{t / 4}\t,\t{140 - t / 8}\n' for t in range(0, 121)))
     cwd = {'start': d / 'start', 'sub': d / 'start' / 'sub', 'root': Path('/')}[start]
+    if cid == 'relative-data-file' and start != 'root':
+        # … nor one lying in the directory the command is started from
+        (cwd / 'Examples').mkdir(exist_ok=True)
+        (cwd / 'Examples' / 'ReservoirOutput.txt').write_text(''.join(f'{t / 4}\t,\t{150 - t / 6}\n' for t in range(0, 121)))
     out_arg = {'default': None, 'relative': 'r.out', 'relative-subdir': 'out/res.out', 'absolute': str(d / 'abs' / 'x.out'),
-               'dir-contains-name': 'a.out.d/a.out', 'absolute-dir-contains-name': str(d / 'abs' / 'b.out.d' / 'b.out'), 'no-suffix': 'report'}[shape]
+               'dir-contains-name': 'a.out.d/a.out', 'absolute-dir-contains-name': str(d / 'abs' / 'b.out.d' / 'b.out'), 'no-suffix': 'report',
+               'no-suffix-in-dotted-dir': 'site.v2/run2'}[shape]
     if start == 'root' and out_arg is not None and not out_arg.startswith('/'):
         out_arg = None if shape == 'default' else str(d / 'abs' / ('root_' + shape.replace('-', '_') + '.out'))
     if start == 'root' and shape == 'default':
@@ -118,7 +125,7 @@ def evaluate(chk: core.Check, n_cases):
     combos = [(c, s, st) for c in pool for s in SHAPES for st in ('start', 'sub', 'root')]
     rng.shuffle(combos)
     # every shape at least once with a succeeding and a failing input
-    must = [(c, s, 'start') for s in SHAPES for c in ('ok0', 'badrange')] + [('relative-data-file', 'relative', 'start'), ('relative-data-file', 'absolute', 'sub'), ('badfile', 'default', 'start'), ('badfile', 'absolute', 'sub'), ('badcalc', 'relative', 'start'), ('mpf-b', 'relative', 'start'), ('mpf-a', 'absolute', 'sub')]
+    must = [(c, s, 'start') for s in SHAPES for c in ('ok0', 'badrange')] + [('relative-data-file', 'relative', 'start'), ('relative-data-file', 'absolute', 'sub'), ('badfile', 'default', 'start'), ('badfile', 'absolute', 'sub'), ('badcalc', 'relative', 'start'), ('mpf-b', 'relative', 'start'), ('mpf-a', 'absolute', 'sub'), ('addon', 'relative', 'start')]
     for (c, s, st) in (must + combos)[:n_cases]:
         jobs.append((str(Path(chk.scratch) / f'cli{k}'), c, pool[c], s, st))
         k += 1
@@ -228,11 +235,56 @@ def mc_embedded(chk: core.Check, pool, ref, n):
             chk.fail('C20/mc-rows', 'the Monte-Carlo driver did not produce one row per embedded run', {'content': cid, 'rows': rows})
 
 
+DIRECT = r"""
+import sys
+inp = sys.argv[1]
+sys.argv = ['direct']
+from geophires_x.Model import Model
+m = Model(enable_geophires_logging_config=False, input_file=inp)
+m.read_parameters()
+m.Calculate()
+m.outputs.PrintOutputs(m)
+"""
+
+
+def direct_pipeline(chk: core.Check, pool, ref, cids):
+    """the third entry point of the property: Model -> read_parameters -> Calculate -> PrintOutputs in a fresh process, default report name in the start directory"""
+    def one(cid):
+        d = Path(chk.scratch) / f'direct_{cid}'
+        d.mkdir(exist_ok=True)
+        inp = d / 'case.txt'
+        inp.write_text(pool[cid])
+        env = dict(os.environ, GEOPHIRES_X_VERIF='0', TMPDIR=str(d))
+        p = subprocess.run([core.PY, '-c', DIRECT, str(inp)], cwd=d, capture_output=True, text=True, env=env, timeout=900)
+        rep = d / 'HDR.out'
+        return cid, p.returncode, (rep.read_text(errors='replace') if rep.exists() else None), p.stderr[-300:]
+    with ThreadPoolExecutor(6) as ex:
+        for cid, rc, text, err in ex.map(one, cids):
+            base = {'content': cid, 'input': pool[cid], 'entry_point': 'Model(input_file=…).read_parameters(); Calculate(); outputs.PrintOutputs(model) — started in an empty directory, default report name'}
+            chk.tag('direct-pipeline')
+            chk.case(('direct', cid), True)
+            if rc != 0 or text is None:
+                chk.fail('C20/direct-pipeline/fails', 'the direct Model pipeline fails (or writes no HDR.out in its start directory) for an input the client simulates', {**base, 'exit_status': rc, 'stderr_tail': err})
+                continue
+            if digest(text) != ref[cid]['digest']:
+                cl = ref[cid].get('report') or ''
+                a = [ln for ln in text.splitlines() if not re.search(r'Simulation Date|Simulation Time|Calculation Time|GEOPHIRES Version', ln)]
+                b = [ln for ln in cl.splitlines() if not re.search(r'Simulation Date|Simulation Time|Calculation Time|GEOPHIRES Version', ln)]
+                only_direct = [ln.strip() for ln in a if ln not in b and ln.strip()][:3]
+                only_client = [ln.strip() for ln in b if ln not in a and ln.strip()][:3]
+                chk.fail('C20/direct-vs-client/report-differs', f'the direct Model pipeline and the client produce different case reports for the same input ({len(a)} vs {len(b)} lines)',
+                         {**base, 'lines_only_in_direct_report': only_direct, 'lines_only_in_client_report': only_client})
+
+
 def run(chk: core.Check) -> int:
     clean = chk.prove(['GeoVerif.Properties.C20'])
     quick = chk.tier == 'quick'
     pool, ref = evaluate(chk, 40 if quick else 400)
     mc_embedded(chk, pool, ref, 2 if quick else 3)
+    # (not the relative-data-file content: resolving a relative data-file name in the package directory is something main() arranges by chdir — a caller of the
+    #  bare pipeline resolves it in its own directory, which is not a disagreement about the answer)
+    okc = [c for c in pool if ref[c]['ok'] and c != 'relative-data-file']
+    direct_pipeline(chk, pool, ref, sorted(okc, key=lambda c: c != 'addon')[:8 if quick else 40])
     chk.assumptions += ['the report digest ignores the date / time / version / calculation-time lines',
                         'a failure *inside* the report writer can leave a partial file: outside the model, exercised only by the differential runs',
                         'start directory "/" is used with absolute output paths only (the default name would be written into /)']
